@@ -3,6 +3,7 @@ import GambitV.Model.Find
 import GambitV.Model.Taxonomy
 import GambitV.Model.Cli
 import GambitV.Model.Jaccard
+import GambitV.Model.Indexing
 
 /-!
 Run-time library of the Python → Lean translator (`harness/py2lean.py`).  Core Lean only.
@@ -295,6 +296,30 @@ def parallelDists (query values : Arr) (bounds : List Int) (out : ND) : ND :=
   let n := bounds.length - 1
   { out with rows := [(List.range n).foldl (fun (o : List UInt32) i =>
       o.set i (GambitV.jaccardBits query.natVals ((slice values.vals (some (bounds.getD i 0)) (some (bounds.getD (i + 1) 0))).map Int.toNat))) out.vals1] }
+
+/-- a packed signature collection: the concatenated values and the bounds (`bounds[i] … bounds[i+1]` delimit signature `i`) -/
+structure CArr where
+  values : List Int
+  bounds : List Int
+  deriving Repr, DecidableEq, Inhabited
+
+/-- `SignatureArray.uninitialized(lengths, …)`: bounds are the cumulative lengths, the values are not yet written (zeros here) -/
+def CArr.boundsOf (acc : Int) : List Int → List Int
+  | [] => [acc]
+  | l :: ls => acc :: CArr.boundsOf (acc + l) ls
+def CArr.uninitialized (lengths : List Int) : CArr :=
+  let b := CArr.boundsOf 0 lengths
+  { values := List.replicate (b.getLastD 0).toNat 0, bounds := b }
+
+/-- `np.copyto(out[i], x, casting='unsafe')` where `out[i]` is the view `values[bounds[i]:bounds[i+1]]`: the lengths must agree -/
+def CArr.putItemBad (c : CArr) (i : Int) (x : List Int) : Bool :=
+  match getItem? c.bounds i, getItem? c.bounds (i + 1) with
+  | some a, some b => decide ((slice c.values (some a) (some b)).length ≠ x.length)
+  | _, _ => true
+def CArr.putItem (c : CArr) (i : Int) (x : List Int) : CArr :=
+  match getItem? c.bounds i, getItem? c.bounds (i + 1) with
+  | some a, some b => { c with values := putSlice c.values a b x }
+  | _, _ => c
 
 /-- `gambit.classify.GenomeMatch` (reference genomes are indices into the list of genome taxa) -/
 structure GenomeMatch where
